@@ -31,6 +31,8 @@ ATTRS = [
     {'origin': 0, 'path': [65002], 'nh': '10.0.0.2', 'med': None},
     {'origin': 2, 'path': [65002, 65003], 'nh': '10.0.0.2', 'med': 50},
     {'origin': 0, 'path': [65002], 'nh': '10.0.0.3', 'med': None},
+    {'origin': 0, 'path': [65002], 'nh': '10.0.0.2', 'med': 50},                      # = set 0 plus MED
+    {'origin': 0, 'path': [65002], 'nh': '10.0.0.2', 'med': 50, 'comm': [0xFFFFFF01]},  # = set 3 plus COMMUNITIES
 ]
 FS_RULES = [
     [rc.fs_prefix4(1, '10.9.0.0/16')],
@@ -45,6 +47,8 @@ def enc_attrs(a):
     out = rc.a_origin(a['origin']) + rc.a_as_path([(2, a['path'])], True) + rc.a_next_hop(a['nh'])
     if a['med'] is not None:
         out += rc.a_med(a['med'])
+    if a.get('comm'):
+        out += rc.a_communities(a['comm'])
     return out
 
 
@@ -52,6 +56,8 @@ def dec_attrs(a):
     d = {1: a['origin'], 2: [(2, list(a['path']))], 3: a['nh']}
     if a['med'] is not None:
         d[4] = a['med']
+    if a.get('comm'):
+        d[8] = [rc.community_text(v) for v in a['comm']]
     return d
 
 
@@ -59,6 +65,8 @@ def rest_attrs(a):
     d = {'1': a['origin'], '2': [[2, list(a['path'])]], '3': a['nh']}
     if a['med'] is not None:
         d['4'] = a['med']
+    if a.get('comm'):
+        d['8'] = [rc.community_text(v) for v in a['comm']]
     return d
 
 
@@ -288,9 +296,9 @@ def run_ops(ops):
 side = st.sampled_from(['peer', 'peer', 'rest'])
 idxs = st.lists(st.integers(0, len(PREFIXES) - 1), min_size=1, max_size=3, unique=True)
 op_strategy = st.one_of(
-    st.tuples(st.just('ann'), idxs, st.integers(0, 2), side).map(list),
+    st.tuples(st.just('ann'), idxs, st.integers(0, 4), side).map(list),
     st.tuples(st.just('wd'), idxs, side).map(list),
-    st.tuples(st.just('mixed'), idxs, st.integers(0, 2), idxs, side).map(
+    st.tuples(st.just('mixed'), idxs, st.integers(0, 4), idxs, side).map(
         lambda t: ['mixed', t[1], t[2], [i for i in t[3] if i not in t[1]] or [(t[1][0] + 1) % len(PREFIXES)], t[4]]),
     st.tuples(st.just('fs-ann'), st.integers(0, 2), side).map(list),
     st.tuples(st.just('fs-wd'), st.integers(0, 2), side).map(list),
@@ -313,7 +321,7 @@ def shards(tier):
 
 def run_shard(spec, seed, col, tier):
     if spec['kind'] == 'exh':
-        alpha = [['ann', [1], 0, 'peer'], ['ann', [1], 1, 'peer'], ['ann', [2], 0, 'peer'], ['ann', [1, 2], 1, 'peer'],
+        alpha = [['ann', [1], 0, 'peer'], ['ann', [1], 1, 'peer'], ['ann', [1], 3, 'peer'], ['ann', [1], 4, 'rest'], ['ann', [1], 3, 'rest'], ['ann', [2], 0, 'peer'], ['ann', [1, 2], 1, 'peer'],
                  ['wd', [1], 'peer'], ['wd', [2], 'peer'], ['mixed', [1], 0, [2], 'peer'], ['ann', [1], 0, 'rest'], ['wd', [1], 'rest'],
                  ['drop'], ['vpn-ann2', 0, 16, 1, 17, 'peer'], ['vpn-ann', 0, 16, 'peer'], ['vpn-ann', 0, 17, 'peer'], ['vpn-wd', 0, 'peer'],
                  ['fs-ann2', 0, 1, 'peer'], ['fs-wd', 0, 'peer']]
